@@ -71,7 +71,14 @@ func (r *Result) find(f Finding) {
 			return // one representative per kind/what
 		}
 	}
-	if len(r.Findings) >= r.maxFindings {
+	// the cap is per kind: a flood of model disagreements must not crowd out the violation found after them
+	same := 0
+	for _, g := range r.Findings {
+		if g.Kind == f.Kind {
+			same++
+		}
+	}
+	if same >= r.maxFindings {
 		r.droppedFinds++
 		return
 	}
